@@ -4,6 +4,7 @@ import (
 	"bytes"
 	"io"
 	"reflect"
+	"verif.local/lab/vtree"
 )
 
 func bytesReader(b []byte) io.Reader { return bytes.NewReader(b) }
@@ -11,3 +12,5 @@ func bytesReader(b []byte) io.Reader { return bytes.NewReader(b) }
 func mapT() map[string]reflect.Type { return map[string]reflect.Type{} }
 
 // RunConcurrent is implemented in conc.go.
+
+func vtreeA(x any) string { return vtree.A(x) }
